@@ -30,7 +30,7 @@ def main():
     sh("git -C /repo worktree remove --force %s" % wt)
     r = sh("git -C /repo worktree add -q --detach %s HEAD" % wt)
     assert r.returncode == 0, r.stdout
-    out = open(os.path.join(V, "build", "seeded_results.jsonl"), "a")
+    out = open(os.environ.get("SEEDED_RESULTS", os.path.join(V, "build", "seeded_results.jsonl")), "a")
     try:
         for d in map(os.path.abspath, args):
             meta = json.load(open(os.path.join(d, "meta.json")))
